@@ -122,7 +122,7 @@ impl Property for C04 {
     }
 
     fn budget(tier: Tier) -> u64 {
-        tier.pick(1600, 10_000)
+        tier.pick(1600, 8000)
     }
 
     fn rule() -> &'static str {
